@@ -8,28 +8,40 @@ from ..coqeval import eval_checks
 from .. import util
 from .. import unphase_vcf as uv
 
-RULE = ("main stream: generated VCF files (0-4 samples, 1-8 records, 1-2 contigs; per call ploidy 1-6, alleles 0..#ALT "
-        "or '.', all-'/' / all-'|' / mixed separators, '.', './.', '0/.', '.|1', '0|1|.'; records without GT, FORMAT '.'; "
-        "HP/PS/PQ present or not, PS typed Integer or String, PQ Integer or Float, other FORMAT fields DP GQ AD FT XF with "
-        "missing values and dropped trailing fields; 0-3 ALT alleles; an INFO field called PS; header with the FORMAT "
-        "definitions in random order, interleaved with INFO/FILTER/contig lines, and 0-3 ##phasing lines at random "
-        "places, preferably directly before the HP/PS/PQ definitions, also two in a row) in three "
-        "profiles (tame: only shapes the current code survives; mild; wild), each run through `whatshap unphase` twice; "
+RULE = ("main stream: generated VCF files given to `whatshap unphase` as plain file, on stdin ('-'), bgzipped or as BCF "
+        "(0/1/2/3/4/7/12 samples with S_i, 1000-genomes-like, keyword-like (GT, PS, 10, 2) or odd names; 0-8 records, "
+        "sorted / unsorted / duplicate positions, position 1, 1/2/5 contigs, with or without final newline; per call "
+        "ploidy 1-10 mixed within a record, alleles 0..#ALT or '.', all-'/' / all-'|' / mixed separators, ascending or "
+        "descending, record styles free / all unphased / all phased / descending; records without GT, FORMAT '.'; "
+        "HP/PS/PQ present or not independently of the separators, PS typed Integer or String, PQ Integer or Float, other "
+        "FORMAT fields DP GQ AD FT XF and keys sharing a prefix with the tags (PSX, HPQ, GTX), missing values, values at "
+        "2147483000, dropped trailing fields; 0-3 or 10-13 ALT alleles (two-digit allele numbers), symbolic ALT "
+        "(<DEL>, <DUP>, *) with INFO/END; INFO fields called PS/HP/PQ; generic header lines (##phasingX, ##Phasing, "
+        "##phasing_method, ##source, ##ALT, ##SAMPLE, ##commandline); header with the FORMAT definitions in random order, "
+        "interleaved with INFO/FILTER/contig lines, and 0-3 ##phasing lines at random places, preferably directly before "
+        "the HP/PS/PQ definitions, also two in a row) in three profiles (tame / mild / wild = rate of the shapes the "
+        "pre-fix code crashed on), each run through `whatshap unphase` twice; "
         "exhaustive stream: every single-sample genotype over {0,1,.} up to ploidy 4 (quick) / 6 (thorough) with '/' and "
         "'|', each with FORMAT tag sets chosen independently of the separator (none, PS, HP, PQ, DP, PS+PQ, DP+PS+HP+PQ: all "
         "of them up to ploidy 3, two per genotype above), tag-only records without GT, and a corpus of records mixing "
         "phased / unphased / descending samples, each under 9 header layouts (##phasing line(s) directly before the PS / "
         "HP / PQ definition, two in a row, before each, at the end, none, reversed header); malformed stream: files "
-        "whose records use HP/PS/PQ without a header definition (exception class only); phase stream: synthetic reads (harness.synth) phased by `whatshap phase` (PS or HP tag, 1-3 samples, "
-        "unphased / 1/0-ordered / pre-phased / partially missing input), then unphase of input and output, and a second "
-        "phase+unphase round. A case is non-trivial if the input carries phase information (a '|' or an HP/PS/PQ "
-        "value); distinct = distinct input text.")
+        "whose records use HP/PS/PQ without a header definition (exception class only) and six spec-violating inputs "
+        "whose exit class is only recorded; phase stream: synthetic reads (harness.synth) phased by read-based "
+        "`whatshap phase` (1-3 samples, --sample, --ignore-read-groups, pre-phased input, two rounds), by pedigree "
+        "`whatshap phase --ped` (trio, with and without reads) and by `whatshap polyphase` (ploidy 3-4), PS or HP tag, "
+        "plain or .vcf.gz output, random sample names, descending (1/0, 1/0/0) and missing genotypes in the input; then "
+        "unphase of the input and of every phased file. A case is non-trivial if the input carries phase information (a "
+        "'|' or an HP/PS/PQ value); distinct = distinct input text.")
 TRUSTED = [
     "modelled, not verified: pysam/htslib VCF parsing and writing (VariantFile, record.format deletion, call['GT'] "
     "get/set, call.phased setter) — their results enter the model as parsed records and as the exception class",
     "the harness' own reading of VCF text (tab/colon splitting, GT text -> alleles and '|' flag) and pysam (same "
     "library) for the parsed view of the other columns; tokens are interned strings",
-    "`whatshap phase` (phase stream) is used as a black box producing phased files; its frame conditions are C04's",
+    "`whatshap phase` / `whatshap polyphase` (phase stream) are used as black boxes producing phased files; their frame "
+    "conditions are C04's / C15's",
+    "symbolic ALT alleles are generated together with a declared INFO/END value: without the declaration htslib adds END "
+    "while reading and even a plain pysam copy of the record fails (observed, below whatshap)",
 ]
 ASSUMPTIONS = [
     "input is a well-formed VCF 4.2 text file: every FORMAT/INFO/FILTER/contig used is declared, GT is the first "
@@ -500,6 +512,45 @@ def check_malformed(st, specs):
     st.l2_fail_fixed += [kept[i] for i in failing["fixed"]]
 
 
+def observed_malformed_specs():
+    """inputs that violate the VCF specification but that htslib accepts: only the exit class is recorded (tally
+    `observed_malformed.<what>.<exit>`), no verdict — the property speaks about well-formed files"""
+    out = []
+    s = uv.single_call_spec("1|0", tags=["DP", "PS"])
+    s["records"][0]["format"] = ["DP", "GT", "PS"]
+    s["records"][0]["calls"] = [["7", "1|0", "100"]]
+    out.append(("GT_not_first", s))
+    s = uv.single_call_spec("1|0", tags=["PS"])
+    s["formats"] = [f for f in s["formats"] if f[0] != "GT"]
+    out.append(("GT_undeclared", s))
+    s = uv.single_call_spec("3|0", tags=["PS"])
+    out.append(("allele_out_of_range", s))
+    s = uv.single_call_spec("1|0", tags=["PS", "PS"])
+    out.append(("duplicate_FORMAT_key", s))
+    s = uv.multi_call_spec(["GT", "PS"], [["1|0", "100"], ["0/1", "."]])
+    s["records"][0]["calls"] = s["records"][0]["calls"][:1]
+    out.append(("too_few_sample_columns", s))
+    s = uv.single_call_spec("1|0", tags=["PS"])
+    s["records"][0]["calls"][0][1] = "abc"
+    out.append(("non_integer_PS_in_Integer_field", s))
+    return out
+
+
+def check_observed_malformed(st):
+    ctx = st.ctx
+    obs = {}
+    for what, spec in observed_malformed_specs():
+        text = uv.write_text(spec)
+        p_in = os.path.join(st.wd, f"obs_{what}.vcf")
+        with open(p_in, "w") as f:
+            f.write(text)
+        rc, out, exc, err = unphase_cli(ctx, p_in)
+        ctx.tally(f"observed_malformed.{what}.{exc or 'ok'}")
+        body = [l for l in out.split("\n") if l and not l.startswith("#")]
+        obs[what] = {"exit": exc or "ok", "output_record": body[0] if body else None}
+    ctx.extra["observed_malformed_inputs_no_verdict"] = obs
+
+
 def settle_variant(st):
     """decide which variant of the record rule the implementation follows (all cases must agree with one)"""
     ctx = st.ctx
@@ -528,50 +579,131 @@ def report(st, sig, what, spec):
 
 
 # ------------------------------------------------------------------------------------- phase stream
-def gen_phase_scenario(rng):
+PHASE_NAME_POOL = ["S1", "S2", "S3", "NA12878", "HG002", "child", "mother", "father", "a", "B", "10", "2", "sample_1",
+                   "sample_10", "x.1", "PS", "GT"]
+
+
+def make_phase_payload(rng, kind=None):
+    """one case of the phase stream. kind: 'reads' (read-based `whatshap phase`, 1-3 unrelated samples), 'trio'
+    (`whatshap phase --ped`, with or without reads), 'poly' (`whatshap polyphase`, ploidy 3-4)."""
     from .. import synth
-    nsamples = rng.choice([1, 1, 2, 3])
-    sc = synth.make_scenario(rng, nchrom=rng.choice([1, 1, 2]), nsamples=nsamples, nvars=rng.randint(4, 10),
-                             kinds=rng.choice([("snv",), ("snv", "ins", "del", "mnp")]), het_fraction=0.75)
-    return sc
+    kind = kind or rng.choice(["reads", "reads", "reads", "trio", "poly"])
+    names = rng.sample(PHASE_NAME_POOL, 3)
+    pay = {"kind": kind, "seed": rng.randrange(1 << 30), "nreads": rng.choice([15, 30, 60]),
+           "info": rng.choice([".", "DP=10"]), "out_gz": rng.random() < 0.25, "prephased": False, "only_first": False,
+           "ignore_rg": False}
+    overrides = []
+    if kind == "poly":
+        k = rng.choice([3, 4])
+        n = rng.choice([1, 1, 2])
+        sc = synth.make_poly_scenario(rng, k, nsamples=n, nvars=rng.randint(5, 9), kinds=("snv",),
+                                      sample_names=names[:n] if rng.random() < 0.5 else None)
+        for s in sc.samples:
+            for c in sc.chroms:
+                for i in range(len(sc.variants[c])):
+                    col = sc.haps[s][c][i]
+                    x = rng.random()
+                    if x < 0.2 and len(set(col)) > 1:
+                        overrides.append([s, c, i, "/".join(map(str, sorted(col, reverse=True)))])   # descending
+                    elif x < 0.25:
+                        overrides.append([s, c, i, "/".join(["."] * k)])
+        pay.update(rounds=[rng.choice(["PS", "HP"])], nreads=rng.choice([40, 80]))
+    else:
+        if kind == "trio":
+            sc = synth.make_scenario(rng, nchrom=rng.choice([1, 2]), nsamples=3, nvars=rng.randint(4, 10),
+                                     kinds=rng.choice([("snv",), ("snv", "ins", "del", "mnp")]), het_fraction=0.75,
+                                     sample_names=names if rng.random() < 0.6 else ["father", "mother", "child"])
+            fa, mo, ch = sc.samples
+            for c in sc.chroms:
+                sc.haps[ch][c], _ = synth.inherit(rng, sc.haps[fa][c], sc.haps[mo][c], recomb_prob=0.0)
+            pay.update(with_reads=rng.random() < 0.5, rounds=[rng.choice(["PS", "HP"])])
+        else:
+            nsamples = rng.choice([1, 1, 2, 3])
+            sc = synth.make_scenario(rng, nchrom=rng.choice([1, 1, 2]), nsamples=nsamples, nvars=rng.randint(4, 10),
+                                     kinds=rng.choice([("snv",), ("snv", "ins", "del", "mnp")]), het_fraction=0.75,
+                                     sample_names=names[:nsamples] if rng.random() < 0.5 else None)
+            pay.update(prephased=rng.random() < 0.3, only_first=rng.random() < 0.3,
+                       ignore_rg=(nsamples == 1 and rng.random() < 0.3),
+                       rounds=rng.choice([["PS"], ["HP"], ["PS", "HP"], ["HP", "PS"], ["PS", "PS"]]))
+        for s in sc.samples:
+            for c in sc.chroms:
+                for i in range(len(sc.variants[c])):
+                    a, b = sc.haps[s][c][i]
+                    x = rng.random()
+                    if x < 0.12 and a != b:
+                        overrides.append([s, c, i, "1/0"])
+                    elif x < 0.16 and kind != "trio":
+                        overrides.append([s, c, i, "./."])
+                    elif x < 0.19 and kind != "trio":
+                        overrides.append([s, c, i, "0/."])
+        if not any(o[3] == "1/0" for o in overrides):
+            hets = [(s, c, i) for s in sc.samples for c in sc.chroms for i in range(len(sc.variants[c]))
+                    if sc.haps[s][c][i][0] != sc.haps[s][c][i][1] and not any(o[:3] == [s, c, i] for o in overrides)]
+            if hets:
+                s_, c_, i_ = rng.choice(hets)
+                overrides.append([s_, c_, i_, "1/0"])
+    pay["sc"] = sc.to_json()
+    pay["overrides"] = [] if pay["prephased"] else overrides
+    return pay
 
 
 def run_phase_case(ctx, wd, tag, payload):
-    """payload: dict(sc=json scenario, seed, tag, prephased, overrides, rounds) -> file paths + texts"""
+    """build the inputs, run `whatshap phase` / `polyphase` (possibly several rounds), then `whatshap unphase` on the
+    original and on every phased file"""
+    import gzip
     import random
     from .. import synth
-    sc = synth.Scenario.from_json(payload["sc"])
+    kind = payload.get("kind", "reads")
     rng = random.Random(payload["seed"])
     d = os.path.join(wd, tag)
     os.makedirs(d, exist_ok=True)
-    fasta = synth.write_fasta(sc, os.path.join(d, "ref.fa"))
-    reads = []
-    for s in sc.samples:
-        for c in sc.chroms:
-            reads += synth.simulate_reads(rng, sc, s, c, payload["nreads"], len_range=(80, 220))
-    bam = synth.write_bam(sc, reads, os.path.join(d, "reads.bam"))
-    phased = None
-    if payload["prephased"]:
-        phased = {s: {c: {i: sc.variants[c][0].pos + 1 for i in range(len(sc.variants[c]))
-                          if sc.haps[s][c][i][0] != sc.haps[s][c][i][1] and (i % 3) != 2} for c in sc.chroms}
-                  for s in sc.samples[:1]}
     ov = {(s, c, i): t for s, c, i, t in payload["overrides"]}
     extra = ['##INFO=<ID=DP,Number=1,Type=Integer,Description="Depth">'] if payload["info"] != "." else []
-    vcf = synth.write_vcf(sc, os.path.join(d, "in.vcf"), phased=phased, gt_override=ov or None, extra_header=extra,
-                          info=payload["info"])
+    if kind == "poly":
+        sc = synth.PolyScenario.from_json(payload["sc"])
+        reads = []
+        for s in sc.samples:
+            for c in sc.chroms:
+                reads += synth.simulate_poly_reads(rng, sc, s, c, payload["nreads"], len_range=(120, 300))
+        vcf = synth.write_poly_vcf(sc, os.path.join(d, "in.vcf"), gt_override=ov or None, extra_header=extra, info=payload["info"])
+    else:
+        sc = synth.Scenario.from_json(payload["sc"])
+        reads = []
+        for s in sc.samples:
+            for c in sc.chroms:
+                reads += synth.simulate_reads(rng, sc, s, c, payload["nreads"], len_range=(80, 220))
+        phased = None
+        if payload["prephased"]:
+            phased = {s: {c: {i: sc.variants[c][0].pos + 1 for i in range(len(sc.variants[c]))
+                              if sc.haps[s][c][i][0] != sc.haps[s][c][i][1] and (i % 3) != 2} for c in sc.chroms}
+                      for s in sc.samples[:1]}
+        vcf = synth.write_vcf(sc, os.path.join(d, "in.vcf"), phased=phased, gt_override=ov or None, extra_header=extra,
+                              info=payload["info"])
+    fasta = synth.write_fasta(sc, os.path.join(d, "ref.fa"))
+    bam = synth.write_bam(sc, reads, os.path.join(d, "reads.bam"))
     steps = []
     cur = vcf
     for k, tagname in enumerate(payload["rounds"]):
-        outp = os.path.join(d, f"phased{k}.vcf")
-        args = ["phase", "-o", outp, "--reference", fasta, "--tag", tagname]
-        if payload.get("only_first") and len(sc.samples) > 1:
-            args += ["--sample", sc.samples[0]]
-        rc, out, err = util.run_cli(ctx, args + [cur, bam], timeout=600)
+        outp = os.path.join(d, f"phased{k}.vcf" + (".gz" if payload.get("out_gz") else ""))
+        if kind == "poly":
+            args = ["polyphase", "--ploidy", sc.ploidy, "--threads", "1", "-o", outp, "--reference", fasta, "--tag", tagname,
+                    cur, bam]
+        else:
+            args = ["phase", "-o", outp, "--reference", fasta, "--tag", tagname]
+            if payload.get("only_first") and len(sc.samples) > 1:
+                args += ["--sample", sc.samples[0]]
+            if payload.get("ignore_rg"):
+                args += ["--ignore-read-groups"]
+            if kind == "trio":
+                fa, mo, ch = sc.samples
+                ped = synth.write_ped(os.path.join(d, "trio.ped"), [(ch, fa, mo)])
+                args += ["--ped", ped]
+            args += [cur] + ([bam] if kind != "trio" or payload.get("with_reads") else [])
+        rc, out, err = util.run_cli(ctx, args, timeout=600)
         if rc != 0:
-            return {"error": f"whatshap phase failed rc={rc}: {err[-600:]}", "payload": payload}
+            return {"error": f"whatshap {args[0]} failed rc={rc}: {err[-600:]}", "payload": payload}
         steps.append(outp)
         cur = outp
-        # a later round starts from the unphased output of the previous one?  No: re-phase the phased file.
     files = [vcf] + steps
     res = {"payload": payload, "files": []}
     for k, p in enumerate(files):
@@ -579,34 +711,9 @@ def run_phase_case(ctx, wd, tag, payload):
         up = os.path.join(d, f"u{k}.vcf")
         with open(up, "w") as f:
             f.write(out)
-        res["files"].append({"path": p, "text": open(p).read(), "upath": up, "utext": out, "exc": exc, "err": err[-2500:]})
+        text = gzip.open(p, "rt").read() if p.endswith(".gz") else open(p).read()
+        res["files"].append({"path": p, "text": text, "upath": up, "utext": out, "exc": exc, "err": err[-2500:]})
     return res
-
-
-def make_phase_payload(rng, sc):
-    overrides = []
-    for s in sc.samples:
-        for c in sc.chroms:
-            for i in range(len(sc.variants[c])):
-                a, b = sc.haps[s][c][i]
-                x = rng.random()
-                if x < 0.12 and a != b:
-                    overrides.append([s, c, i, "1/0"])
-                elif x < 0.16:
-                    overrides.append([s, c, i, "./."])
-                elif x < 0.19:
-                    overrides.append([s, c, i, "0/."])
-    prephased = rng.random() < 0.3
-    if not any(o[3] == "1/0" for o in overrides):
-        hets = [(s, c, i) for s in sc.samples for c in sc.chroms for i in range(len(sc.variants[c]))
-                if sc.haps[s][c][i][0] != sc.haps[s][c][i][1] and not any(o[:3] == [s, c, i] for o in overrides)]
-        if hets:
-            s_, c_, i_ = rng.choice(hets)
-            overrides.append([s_, c_, i_, "1/0"])
-    return {"sc": sc.to_json(), "seed": rng.randrange(1 << 30), "nreads": rng.choice([15, 30, 60]),
-            "prephased": prephased, "overrides": [] if prephased else overrides,
-            "rounds": rng.choice([["PS"], ["HP"], ["PS", "HP"], ["HP", "PS"], ["PS", "PS"]]),
-            "only_first": rng.random() < 0.3, "info": rng.choice([".", "DP=10"])}
 
 
 def check_phase(st, payloads, label="phase", perturb=None):
@@ -620,9 +727,25 @@ def check_phase(st, payloads, label="phase", perturb=None):
     with ThreadPoolExecutor(max_workers=16) as ex:
         results = list(ex.map(lambda a: run_phase_case(ctx, st.wd, f"{label}{base + a[0]}", a[1]), enumerate(payloads)))
     cases, kept, nfail, crashed = [], [], 0, []
+    nerr = 0
     for res in results:
+        pl = res["payload"]
+        ctx.tally(f"{label}.kind.{pl.get('kind', 'reads')}")
+        ctx.tally(f"{label}.samples.{len(pl['sc']['samples'])}")
+        if pl["sc"]["samples"][0] not in ("S1", "father"):
+            ctx.tally(f"{label}.sample_names_random")
+        for flag in ("out_gz", "prephased", "only_first", "ignore_rg", "with_reads"):
+            if pl.get(flag):
+                ctx.tally(f"{label}.{flag}")
+        ctx.tally(f"{label}.rounds.{len(pl['rounds'])}")
+        ctx.tally(f"{label}.overrides_descending", sum(1 for o in pl["overrides"] if "." not in o[3]))
+        ctx.tally(f"{label}.overrides_missing", sum(1 for o in pl["overrides"] if "." in o[3]))
         if "error" in res:
-            raise RuntimeError("harness: " + res["error"])
+            # the phasing command (not the command under test) failed: no case; counted, and fatal only if frequent
+            nerr += 1
+            ctx.tally(f"{label}.phase_command_failed")
+            ctx.log("phase stream: " + res["error"][:300].replace("\n", " | "))
+            continue
         files = res["files"]
         if perturb:
             files[-1]["utext"] = perturb(files[-1]["utext"])
@@ -652,8 +775,12 @@ def check_phase(st, payloads, label="phase", perturb=None):
             _, u_ph = uv.parse_vcf(f["upath"], f["utext"], st.interner)
             nph = sum(1 for r in r_ph for c in r["calls"] if c["phased"])
             ctx.tally(f"{label}.phased_calls", nph)
+            ctx.tally(f"{label}.phased_calls.{res['payload'].get('kind', 'reads')}", nph)
+            ctx.tally(f"{label}.phased_calls.ploidy3+", sum(1 for r in r_ph for c in r["calls"] if c["phased"] and len(c["gt"]) > 2))
             cases.append(f"(({uv.recs_term(r_orig)}, {uv.recs_term(r_ph)}, ({uv.recs_term(u_orig)}, {uv.recs_term(u_ph)})) : pcase)")
             kept.append((res, k))
+    if nerr > max(2, len(results) // 3):
+        raise RuntimeError(f"harness: the phasing command failed in {nerr} of {len(results)} phase-stream cases")
     if crashed:
         nfail += reduce_phase_crashes(st, crashed)
     failing, errors = eval_checks("C13p", HEADER, PCHECKS, cases, shard=40)
@@ -754,6 +881,9 @@ CORPUS = [
     uv.multi_call_spec(["GT", "DP", "PQ"], [["0/1", "3", "40"], ["./.", ".", "."]], nrec_before=2),
     uv.multi_call_spec(["GT"], [["1/0"], ["0|1"], ["1/0/0"]]),
     uv.multi_call_spec(["PS", "DP"], [["100", "3"], [".", "4"]], nrec_before=1),
+    # FORMAT '.' (no keys at all) with one and with several samples
+    uv.single_call_spec(None, tags=[]), uv.multi_call_spec([], [[], []]), uv.multi_call_spec([], [[], [], []], nrec_before=2),
+    uv.with_layout(uv.single_call_spec(None, tags=[]), "PS"),
 ]
 
 
@@ -805,9 +935,11 @@ def run(ctx):
         check_specs(st, specs[off:off + 1500], "rnd", perturb=pert)
     # 2b. malformed stream (undeclared HP / PS / PQ): exception class only
     check_malformed(st, [uv.gen_malformed_spec(rng) for _ in range(ctx.n(60, 600))])
+    check_observed_malformed(st)
     # 3. phase stream
     npay = ctx.n(14, 160)
-    pays = [make_phase_payload(rng, gen_phase_scenario(rng)) for _ in range(npay)]
+    forced = ("reads", "trio", "trio", "poly", "poly", "poly")
+    pays = [make_phase_payload(rng, kind) for kind in forced] + [make_phase_payload(rng) for _ in range(npay - len(forced))]
     check_phase(st, pays, perturb=pert if os.environ.get("WHVERIF_C13_PERTURB") == "order" else None)
     settle_variant(st)
     ctx.extra["observation_header_with_several_phasing_lines"] = {
